@@ -78,6 +78,32 @@ def F64.encodeBits (c : F64) (v : Word) : F64 × Bits :=
        [true, true] ++ lowBits (BitVec.ofNat 64 leading) 5 ++ lowBits (BitVec.ofNat 64 (sigbits - 1)) 6
          ++ lowBits (x >>> trailing) sigbits)
 
+/-- `x <<< n` evaluated without building a huge shift (hostile headers make the wrapped trailing
+    count astronomically large; Go's shift by >= 64 yields 0). Equal to `x <<< n` (`shl_eq`). -/
+def shl (x : Word) (n : Nat) : Word := if n < 64 then x <<< n else 0#64
+
+theorem shl_eq (x : Word) (n : Nat) : shl x n = x <<< n := by
+  unfold shl
+  split
+  · rfl
+  · rename_i h
+    apply BitVec.eq_of_getLsbD_eq
+    intro i hi
+    simp only [BitVec.getLsbD_zero, BitVec.getLsbD_shiftLeft]
+    have : i < n := by omega
+    simp [this]
+
+/-- Go: `sigbits = 64 - leading - trailing` in uint64. For a stored (leading, trailing) pair of a valid
+    stream this is the plain difference (`sigOf_eq`); after a hostile header whose trailing count
+    wrapped, the difference wraps back to the header's significant-bit count. -/
+def sigOf (lead trail : Nat) : Nat := (2 ^ 64 + 64 - lead - trail) % 2 ^ 64
+
+theorem sigOf_eq (lead trail : Nat) (h : lead + trail ≤ 64) : sigOf lead trail = 64 - lead - trail := by
+  unfold sigOf
+  have e : 2 ^ 64 + 64 - lead - trail = 2 ^ 64 + (64 - lead - trail) := by omega
+  rw [e, Nat.add_mod, Nat.mod_self, Nat.zero_add, Nat.mod_mod, Nat.mod_eq_of_lt]
+  omega
+
 /-- Go: `Float64Decoder.Decode` on the register-level reader. -/
 def F64.decodeR (c : F64) (r : BitsReader) : F64 × BitsReader × Word :=
   let (r, hdr) := r.peekBits 13
@@ -86,9 +112,9 @@ def F64.decodeR (c : F64) (r : BitsReader) : F64 × BitsReader × Word :=
   else
     if hdr &&& BitVec.ofNat 64 Gen.float64NewLeadingTrailingBit = 0#64 then
       let r := r.consume 2
-      let sig := 64 - c.lead - c.trail
+      let sig := sigOf c.lead c.trail
       let (r, x) := r.readBits sig
-      let v := (x <<< c.trail) ^^^ c.last
+      let v := (shl x c.trail) ^^^ c.last
       ({ c with last := v }, r, v)
     else
       let r := r.consume 13
@@ -98,7 +124,7 @@ def F64.decodeR (c : F64) (r : BitsReader) : F64 × BitsReader × Word :=
       -- valid stream contains; a wrapped shift count >= 64 yields 0 either way)
       let trailing := if leading + sig ≤ 64 then 64 - leading - sig else 2 ^ 64 + 64 - leading - sig
       let (r, x) := r.readBits sig
-      let v := (x <<< trailing) ^^^ c.last
+      let v := (shl x trailing) ^^^ c.last
       ({ last := v, lead := leading, trail := trailing }, r, v)
 
 /-! ### Bool -/
